@@ -221,7 +221,7 @@ func ruleSIBSER(c *Ctx, r *Report) {
 		case b == nil:
 			r.bad(rule, key, c.pos(dr.Ser.Pos()), "payload kind "+k+" is handled only by the inline serialiser")
 		default:
-			if k == "expr.Column" || k == "*expr.RangeBoundary" {
+			if k == "expr.Column" || k == "*expr.RangeBoundary" || k == "*expr.Expression" {
 				// these do not carry values: same skeletons, same guards
 				sa, sb := strings.Join(setKeys(a.skels), " | "), strings.Join(setKeys(b.skels), " | ")
 				// normalise the recursive call names
@@ -770,6 +770,20 @@ func ruleNONINT(c *Ctx, r *Report) {
 			// a comparison of the asserted string/number payload with a constant, or a call on it
 			if (a.Kind == "cmp" || a.Kind == "call") && (strings.Contains(a.Subj, "$1.(string)") || strings.Contains(a.Val, "$1.(string)")) && !strings.HasPrefix(a.Subj, "len(") {
 				r.badW(rule, "serialiser|string-value-test|"+s, c.instrPos(iff), "the parameterized serialiser branches on the value of a string payload ("+s+"): for that value the SQL text differs and no parameter is produced, so the SQL text depends on user data", "`a:\"*\"` is inlined as '*' and `a:*` yields no parameter")
+				continue
+			}
+			// the payload of a leaf node reached through the operand (e.g. $1.(*expr.Expression).Left.(string) == "*"):
+			// declassified only for the ends of a range (the unbounded-end marker), i.e. under the RangeBoundary case
+			if a.Kind == "cmp" && strings.HasPrefix(a.Val, `"`) && strings.Contains(a.Subj, ".Left.(string)") {
+				inRB := false
+				for _, d := range c.domAtoms(b) {
+					if d.Kind == "type" && d.Pos && d.Subj == "$1" && d.Val == "*expr.RangeBoundary" {
+						inRB = true
+					}
+				}
+				if !inRB {
+					r.badW(rule, "serialiser|leaf-value-test|"+s, c.instrPos(iff), "the parameterized serialiser branches on the value of a leaf's payload ("+s+") outside the range-end case: for that value the SQL text differs and no parameter is produced, so the SQL text depends on user data", "`a:*` yields the text '*' and no parameter while the inline SQL is SIMILAR TO '%'")
+				}
 			}
 		}
 	}
